@@ -24,12 +24,16 @@
    multiplexers themselves and their children (standard or enum; one group, several groups or fixed).  Not covered
    by a whole-bus theorem: a multiplexer inside a multiplexer (nested multiplexing).
    The full statement is
-   Acme.C11.RoundTrip.export_import_full_statement (well_formed, names_ok spelled out there).
+   Acme.C11.RoundTrip.export_import_full_statement (well_formed, names_ok spelled out there);
+   `export_import_wf_flat` proves its conclusion from exactly those two hypotheses plus `flat_bus` (every
+   multiplexer top-level, top-level signals listed in position order, a multiplexed signal lists fewer groups than
+   its multiplexer has - or none, the multiplexer then having at least two -, minimum enum sizes below 2^32):
+   `wf_flat_in_fragment` shows such a bus lies in the merged fragment `ambus`.
    The other ingredients are proved in isolation: the four attribute types (+hex) and their defaults
    through the write/parse effect, SG_MUL_VAL_ ranges, the start-bit conversion, the sanitiser. *)
 From Coq Require Import String ZArith List.
 From Acme.C10 Require Import DbcDoc BusModel Import Export Bits.
-From Acme.C11 Require Import Strings Proofs RoundTrip RoundTripEnum RoundTripAttr RoundTripMux RoundTripAll Refuted.
+From Acme.C11 Require Import Strings Proofs RoundTrip RoundTripEnum RoundTripAttr RoundTripMux RoundTripAll Bridge Refuted.
 Import ListNotations.
 Open Scope Z_scope.
 
@@ -77,6 +81,21 @@ Theorem export_import_ast_partial : forall b, ambus b ->
   exists b', export_import b = Ok b' /\ proj_bus b' = proj_bus b.
 Proof. exact RoundTripAll.export_import_all_thm. Qed.
 Print Assumptions export_import_ast_partial.
+
+(* the merged fragment seen from the hypotheses of the full statement: a well-formed (`well_formed`: the library's
+   invariants as far as export / import depend on them), DBC-expressible (`names_ok`) bus that is FLAT - every
+   multiplexer top-level, top-level signals in position order, group lists shorter than the group count (none =
+   fixed, then at least two groups), minimum enum sizes below 2^32 - lies in `ambus` ... *)
+Theorem wf_flat_in_fragment : forall b, well_formed b -> names_ok b -> flat_bus b -> ambus b.
+Proof. exact Bridge.wf_flat_ambus. Qed.
+Print Assumptions wf_flat_in_fragment.
+
+(* ... so the conclusion of export_import_full_statement holds for every such bus: what the full statement still
+   lacks is nested multiplexing (and signal lists not in position order / group lists naming every group) *)
+Theorem export_import_wf_flat : forall b, well_formed b -> names_ok b -> flat_bus b ->
+  exists b', export_import b = Ok b' /\ proj_bus b' = proj_bus b.
+Proof. exact Bridge.export_import_wf_flat. Qed.
+Print Assumptions export_import_wf_flat.
 
 (* the merged hypothesis is the union of the fragments: the multiplexer fragment lies inside it, and so does the
    attribute fragment (hence the enum and plain fragments) when the signal ids of every message are distinct -
